@@ -80,6 +80,9 @@ structure SSt where
   ready : List (Int × Nat) := []
   children : List Proc := []
   behs : List Beh := []
+  /-- unbind handlers (`ubeh k …`): what the callback of watch `k` does when a cancel from outside any callback
+      gives it its unbind notification (registrations count like any other: what they register must run) -/
+  ubehs : List Beh := []
   raised : List Int := []        -- pending in the kernel (raised while a watcher keeps the signal blocked)
   inpoll : List Int := []
   laterQ : List Int := []        -- deferred callbacks in queue order (FIRST goes to the front)
@@ -690,7 +693,17 @@ def step (s : SSt) (wop : WOp) (impl : List String) (why : String) (owner : Nat 
         if s.misuse then .ok s else
         match expectNotes s.c17 evs notes with
         | .error e => .error e
-        | .ok rest => walk s false (rest.length + 1) rest
+        | .ok rest =>
+          -- a cancel from outside any callback: the unbind handler of the watch acts (every action but cancel)
+          let uacts : List Act := match a, notes with
+            | .cancel k, _ :: _ =>
+              (match s.ubehs.find? (fun (b : Beh) => b.k = k) with
+               | some b => b.acts.map fun x => match x with | .cancel _ => .nop | y => y
+               | none => [])
+            | _, _ => []
+          match runActs s rest uacts with
+          | .error e => .error e
+          | .ok (s, rest) => if s.misuse then .ok s else walk s false (rest.length + 1) rest
       | .clock us => .ok { s with clockUs := s.clockUs + us }
       | .ready fd bits => .ok { s with ready := (fd, bits) :: s.ready.filter (·.1 ≠ fd) }
       | .inpoll sg => .ok { s with inpoll := s.inpoll ++ [sg] }
